@@ -167,6 +167,8 @@ let dispatch name =
   | "circle_net" -> let which = rint () in let s2 = rq () in
     plist pqlist (if which = 2 then Exec.q_circle_net_p2C0 s2 else Exec.q_circle_net_p4C1 s2)
   | "disc_square_net" -> let r = rq () in let w = rq () in plist pqlist (Exec.q_disc_square_net r w)
+  | "const_par_curve" -> let tol = rq () in let o = robj () in let x = rq () in let d = rnat () in
+    pres pobj (Exec.q_const_par_curve tol o x d)
   | "curve_interpolate" -> let tol = rq () in let b = rbasis () in let ts = rqlist () in let x = rlist rqlist in
     pres (fun o -> plist pqlist o.Obj.o_cps) (Exec.q_curve_interpolate tol b ts x)
   | "curve_lsq" -> let tol = rq () in let b = rbasis () in let ts = rqlist () in let x = rlist rqlist in
